@@ -37,6 +37,18 @@ CHECKS = {
         note='trusts hplverif/ev.py; "f itself" is read as the same object or an equal tree with identical stored types (predicates are re-wrapped by the library)',
         ref='DESIGN.md section 4, C10',
     ),
+    'C11': dict(
+        technique='exhaustive shape enumeration (1400 scope x pattern x width shapes) instantiated from Hypothesis tapes; expectation computed from the model tree (length, activator-major order, per-member field-by-field comparison, identity/metadata rules, idempotence)',
+        level='every one of the 1400 shapes is visited on every run (2 instances each in the quick tier, 30 in the thorough tier) with generated predicates, aliases, bounds and metadata; the decomposition is compared member by member with the expectation derived from the source text',
+        note='relies on C01 for text -> AST; alias references are only generated where they stay bound in every member (the other case is the listed known finding F13, probed by a labelled family)',
+        ref='DESIGN.md section 4, C11',
+    ),
+    'C12': dict(
+        technique='bounded exhaustive trace enumeration per generated property (small-scope model checking by enumeration) against a reference trace semantics, metamorphic relation "P holds iff every member of canonical_form(P) holds", under two readings of scope re-activation',
+        level='for every generated property (hundreds per run, all scope forms x patterns x widths x alias/predicate choices) ALL timed traces up to length 3 (quick) / 4 (thorough) over its own topics with payload 0/1 and gaps 1/3 are enumerated (millions of (property, trace) pairs); a violation must persist under both readings',
+        note='the trace semantics in hplverif/ts.py is written from an informal document (docs/semantics.md is TBD): the check validates the decomposition relative to that semantics, not the semantics itself; bounded trace length and a two-value payload',
+        ref='DESIGN.md section 4, C12',
+    ),
     'C13': dict(
         technique='property-based testing with the reference evaluator: algebraic laws of negate/join, metamorphic relation for this<->variable substitution (evaluate with the variable bound to the message), structural expectation from the model tree, round trip of the two replacements, event-with-own-alias vs alias-free spelling differential',
         level='bounded exploration over four generated families (combinators incl. both vacuous predicates; this->var; var->this; aliased events via parser and via HplSimpleEvent.publish) with value, structure and reference-query oracles',
